@@ -80,8 +80,9 @@ Record umod := { u_kind : kind; u_excl : bool; u_prev : option nat; u_users : na
 Record obj := { o_kind : kind; o_train : bool; o_ver : nat (* in-place writes of weight/bias *);
                 o_bn : option nat (* id of the BatchNorm copy held in .bn *); o_fold : bool; o_src : option nat (* copied from *) }.
 Inductive method := PIT | MPS | SN.
-(* c_copyfuse / c_setflag / c_restore = true: the code as it is now; false: the code at the pinned commit *)
-Record cfg := { c_method : method; c_auto : bool; c_fold : bool; c_copyfuse : bool; c_setflag : bool; c_restore : bool }.
+(* c_copyfuse / c_setflag / c_restore / c_keepshared = true: the code as it is now; false: the code at the pinned commit
+   (c_keepshared = false with the other three true: the code before the last repair) *)
+Record cfg := { c_method : method; c_auto : bool; c_fold : bool; c_copyfuse : bool; c_setflag : bool; c_restore : bool; c_keepshared : bool }.
 Record state := { heap : list obj; seed : list (option nat); seed_train : bool; wrap_train : bool }.
 
 Definition set_train (v : bool) (o : obj) : obj :=
@@ -158,7 +159,8 @@ Definition step_restore (mods : list umod) (rt : bool) (h : list obj) : list obj
 Definition seed_ids (s : list (option nat)) : list nat := flat_map (fun x => match x with Some id => [id] | None => [] end) s.
 Definition reach (h : list obj) (s : list (option nat)) : list nat :=
   let ids := seed_ids s in ids ++ flat_map (fun id => match o_bn (nth id h dobj) with Some b => [b] | None => [] end) ids.
-(* tail of PIT.__init__ / MPS.__init__: self.train()/eval(); self.seed.train()/eval() *)
+(* tail of PIT.__init__ / MPS.__init__: self.train()/eval(); self.seed.train()/eval() — both recurse into the modules the
+   seed shares with the caller's model; c_keepshared: the caller's objects then get the flags found back (step_restore) *)
 Definition step_final (rt : bool) (h : list obj) (s : list (option nat)) : list obj :=
   let r := reach h s in mapi (fun id o => if memb id r then set_train rt o else o) h.
 
@@ -177,7 +179,8 @@ Definition convert (c : cfg) (mods : list umod) (rt : bool) : option state :=
       let h4 := if c_restore c then step_restore mods rt h3 else h3 in
       match c_method c with
       | SN => Some {| heap := h4; seed := s3; seed_train := false; wrap_train := true |}
-      | _ => Some {| heap := step_final rt h4 s3; seed := s3; seed_train := rt; wrap_train := rt |}
+      | _ => Some {| heap := if c_keepshared c then step_restore mods rt (step_final rt h4 s3) else step_final rt h4 s3;
+                     seed := s3; seed_train := rt; wrap_train := rt |}
       end
   end.
 
@@ -186,9 +189,12 @@ Definition pview (o : obj) : kind * nat * option nat * bool := (o_kind o, o_ver 
 
 (* ---- correspondence helpers *)
 Definition now (m : method) (auto fold : bool) : cfg :=
-  {| c_method := m; c_auto := auto; c_fold := fold; c_copyfuse := true; c_setflag := true; c_restore := true |}.
+  {| c_method := m; c_auto := auto; c_fold := fold; c_copyfuse := true; c_setflag := true; c_restore := true; c_keepshared := true |}.
+(* the code before the last repair: the constructor tail overwrites the flags of the shared modules *)
+Definition before_keepshared (m : method) (auto fold : bool) : cfg :=
+  {| c_method := m; c_auto := auto; c_fold := fold; c_copyfuse := true; c_setflag := true; c_restore := true; c_keepshared := false |}.
 Definition pinned (m : method) (auto fold : bool) : cfg :=
-  {| c_method := m; c_auto := auto; c_fold := fold; c_copyfuse := false; c_setflag := false; c_restore := false |}.
+  {| c_method := m; c_auto := auto; c_fold := fold; c_copyfuse := false; c_setflag := false; c_restore := false; c_keepshared := false |}.
 (* per user module: (training afterwards, weights written, has .bn, 0 shared / 1 replaced / 2 absent,
    fold flag of the seed's object in that slot) *)
 Definition slot_code (st : state) (i : nat) : nat :=
